@@ -333,6 +333,20 @@ func (g *Graph) usesFlags() bool {
 						}
 						g.flagVars[obj] = true
 					}
+					// a local that is tested for nil and assigned nil or a
+					// copy of another local somewhere (the shape inlined
+					// "return nil, err" / "if err != nil" takes) is followed
+					// as nil / non-nil
+					if nilable(obj) && g.assignedNilOrCopy(obj) {
+						g.flags = true
+						if g.flagVars == nil {
+							g.flagVars = map[types.Object]bool{}
+						}
+						g.flagVars[obj] = true
+						for _, src := range g.copySources(obj) {
+							g.flagVars[src] = true
+						}
+					}
 				}
 			}
 		}
@@ -640,6 +654,71 @@ func constVal(info *types.Info, e ast.Expr) (int64, bool) {
 		return n, exact
 	}
 	return 0, false
+}
+
+func nilable(obj types.Object) bool {
+	switch obj.Type().Underlying().(type) {
+	case *types.Pointer, *types.Interface:
+		return true
+	}
+	return false
+}
+
+// assignedNilOrCopy: some assignment gives obj the value nil or the value of another local.
+func (g *Graph) assignedNilOrCopy(obj types.Object) bool {
+	found := false
+	g.eachAssign(obj, func(rhs ast.Expr) {
+		if rhs == nil {
+			return
+		}
+		if IsNil(g.Info, rhs) {
+			found = true
+		}
+		if id, ok := ast.Unparen(rhs).(*ast.Ident); ok {
+			if v, isVar := g.Info.ObjectOf(id).(*types.Var); isVar && !v.IsField() && nilable(v) {
+				found = true
+			}
+		}
+	})
+	return found
+}
+
+// copySources returns the nilable locals whose value is copied into obj.
+func (g *Graph) copySources(obj types.Object) []types.Object {
+	var out []types.Object
+	g.eachAssign(obj, func(rhs ast.Expr) {
+		if rhs == nil {
+			return
+		}
+		if id, ok := ast.Unparen(rhs).(*ast.Ident); ok {
+			if v, isVar := g.Info.ObjectOf(id).(*types.Var); isVar && !v.IsField() && nilable(v) && v.Pkg() != nil && v.Parent() != v.Pkg().Scope() {
+				out = append(out, v)
+			}
+		}
+	})
+	return out
+}
+
+// eachAssign calls f with the right-hand side of every assignment to obj
+// (nil when the assignment is not position-by-position).
+func (g *Graph) eachAssign(obj types.Object, f func(rhs ast.Expr)) {
+	for _, v := range g.Vs {
+		as, ok := v.AST.(*ast.AssignStmt)
+		if !ok {
+			continue
+		}
+		for i, l := range as.Lhs {
+			id, ok := ast.Unparen(l).(*ast.Ident)
+			if !ok || g.Info.ObjectOf(id) != obj {
+				continue
+			}
+			if len(as.Lhs) == len(as.Rhs) {
+				f(as.Rhs[i])
+			} else {
+				f(nil)
+			}
+		}
+	}
 }
 
 // isFreshAlloc: &T{...} or new(T).
